@@ -49,11 +49,15 @@ def nonef(x):
     return None
 
 
+def strf(x):
+    return "s" + str(x)
+
+
 def boom(x):
     raise ValueError(f"boom {x}")
 
 
-LIB = {"nonef": nonef, "k0": k0, "inc": inc, "add": add, "pair": pair, "pair_u": pair, "mkd": mkd, "ident": ident, "boom": boom}
+LIB = {"strf": strf, "nonef": nonef, "k0": k0, "inc": inc, "add": add, "pair": pair, "pair_u": pair, "mkd": mkd, "ident": ident, "boom": boom}
 UNPACK = {"pair_u": 2}
 SETUP_FNS = {"sk0": k0, "sinc": inc}  # setup variants (decorated with setup=True)
 LIB.update(SETUP_FNS)
